@@ -13,7 +13,8 @@
 (*                       of this shape may conclude                                           *)
 (*   StepsJustified    : ... and every sequent an item carries after the check (g.ths: the     *)
 (*                       stated one, or the one check_proof assigned in place) is one that     *)
-(*                       R verified at that position                                          *)
+(*                       R verified at that position, or a weakening of one (an item object   *)
+(*                       checked at two positions keeps the sequent of its first check)       *)
 (*   NoGapsHonoured    : accepted with no_gaps      => the object contains no placeholder      *)
 (*   GapsReported      : accepted                   => reported gaps = placeholders present    *)
 (*   ExtensionProved   : theorem installed and no axiom reported => R accepts gap-free and     *)
@@ -25,19 +26,19 @@ EXTENDS C02_ImplDefs, TraceLib
 ToSq(j) == [h |-> { j.h[i] : i \in 1..Len(j.h) }, c |-> j.c]
 RECURSIVE FromJ(_)
 FromJ(js) == [i \in 1..Len(js) |->
-                [id |-> js[i].id, rule |-> js[i].rule, arg |-> js[i].arg, prevs |-> js[i].prevs,
-                 th |-> ToSq(js[i].th), sub |-> FromJ(js[i].sub)]]
+                [id |-> js[i].id, rule |-> js[i].rule, ak |-> js[i].ak, arg |-> js[i].arg, at |-> ToSq(js[i].at),
+                 prevs |-> js[i].prevs, th |-> ToSq(js[i].th), sub |-> FromJ(js[i].sub), alias |-> js[i].alias]]
 Acc(run) == run.oc = "accepted"
 GapsOf(run) == [i \in 1..Len(run.gaps) |-> ToSq(run.gaps[i])]
 
 RunFails(run, nogaps, R, P) ==
   IF ~Acc(run) THEN {}
   ELSE (IF ~R.ok THEN {"AcceptedJustified"} ELSE {})
-       \cup (IF R.ok /\ ~IsNone(ToSq(run.final)) /\ ToSq(run.final) \notin Finals(R, P) THEN {"FinalJustified"} ELSE {})
+       \cup (IF R.ok /\ ~IsNone(ToSq(run.final)) /\ ~(\E o \in Finals(R, P) : CanProve(o, ToSq(run.final))) THEN {"FinalJustified"} ELSE {})
        \cup (IF nogaps /\ Placeholders(P) # <<>> THEN {"NoGapsHonoured"} ELSE {})
        \cup (IF ~BagEq(GapsOf(run), Placeholders(P)) THEN {"GapsReported"} ELSE {})
 StepFails(run, R) ==
-  IF Acc(run) /\ R.ok /\ \E k \in 1..Len(run.ths) : ToSq(run.ths[k].s) \notin At(R.V, run.ths[k].p)
+  IF Acc(run) /\ R.ok /\ \E k \in 1..Len(run.ths) : ~(\E o \in At(R.V, run.ths[k].p) : CanProve(o, ToSq(run.ths[k].s)))
   THEN {"StepsJustified"} ELSE {}
 ExtFails(x, R, P) ==
   IF x.installed /\ ~x.axiom /\ ~(R.ok /\ R.gaps = <<>> /\ \E f \in Finals(R, P) : CanProve(f, ToSq(x.stated)))
